@@ -28,10 +28,11 @@ func (d *Driver) DisciplineGuards(structs []string) *FuncVC {
 	fvc := &FuncVC{Key: "discipline/guards", VC: vc}
 	fail := func(kind, name, why, pos string) {
 		o := vc.oblige(kind, name, "true", "false", why, pos, nil)
-		_ = o
+		o.Decided = "sat"
 	}
 	pass := func(kind, name, why, pos string) {
-		vc.oblige(kind, name, "true", "true", why, pos, nil)
+		o := vc.oblige(kind, name, "true", "true", why, pos, nil)
+		o.Decided = "unsat"
 	}
 	// 1. completeness
 	for _, sn := range structs {
